@@ -39,6 +39,9 @@ pub struct TokenParser {
 
     // tokens currently in KV cache
     llm_tokens: Vec<TokenId>,
+    // the last entry of llm_tokens is an end-of-sequence token that ended the sequence:
+    // no bytes were applied for it (unlike an EOS token the grammar consumed as a token)
+    last_token_is_bare_eos: bool,
     llm_bytes: Vec<u8>,
 
     grm_prefix: Vec<u8>,
@@ -114,6 +117,7 @@ impl TokenParser {
             dbg_grammar: String::new(),
             eos_tokens,
             llm_tokens: Vec::new(),
+            last_token_is_bare_eos: false,
             llm_bytes: Vec::new(),
             grm_prefix: Vec::new(),
             max_tokens_total: max_tokens,
@@ -396,11 +400,13 @@ impl TokenParser {
 
         let new_len = self.llm_tokens.len() - n_tokens;
         let mut bytes_to_drop = 0;
-        for tok in &self.llm_tokens[new_len..] {
-            if self.eos_tokens.contains(tok) {
-                // doesn't count; we hope it's last though...
+        let last_idx = self.llm_tokens.len() - 1;
+        for (idx, tok) in self.llm_tokens.iter().enumerate().skip(new_len) {
+            if idx == last_idx && self.last_token_is_bare_eos {
+                // the EOS that ended the sequence: no bytes were applied for it
                 bytes_to_drop += 0;
             } else {
+                // includes EOS tokens that the grammar consumed as tokens (their bytes were applied)
                 bytes_to_drop += self.tok_trie().token_len(*tok);
             }
         }
@@ -415,6 +421,7 @@ impl TokenParser {
 
         self.max_tokens_total = self.max_tokens_total.saturating_add(n_tokens);
         self.llm_tokens.truncate(new_len);
+        self.last_token_is_bare_eos = false;
         self.llm_bytes
             .truncate(self.llm_bytes.len() - bytes_to_drop);
         self.clear_caches();
@@ -535,6 +542,7 @@ impl TokenParser {
         }
 
         self.llm_tokens.push(tok_id);
+        self.last_token_is_bare_eos = false;
 
         let tok_bytes = trie.decode_raw(&[tok_id]);
 
@@ -633,6 +641,7 @@ impl TokenParser {
                         self.parser.additional_backtrack(additional_backtrack_bytes);
                     }
                     self.llm_tokens.truncate(token_ptr);
+                    self.last_token_is_bare_eos = false;
                     return Ok(backtrack_tokens);
                 }
             }
@@ -831,6 +840,7 @@ impl TokenParser {
                 );
                 if accepting {
                     self.llm_tokens.push(token);
+                    self.last_token_is_bare_eos = true;
                     return Ok(0);
                 }
             }
